@@ -27,17 +27,24 @@ type step struct {
 	Via string `json:"via,omitempty"`
 	ID  uint64 `json:"id,omitempty"`
 
-	Addr      string               `json:"addr,omitempty"`
-	Version   string               `json:"version,omitempty"`
-	ReqState  metapb.StoreState    `json:"req_state,omitempty"`
-	Labels    []*metapb.StoreLabel `json:"labels,omitempty"`
-	Force     bool                 `json:"force,omitempty"`
-	Destroyed bool                 `json:"physically_destroyed,omitempty"`
-	LW        float64              `json:"lw,omitempty"`
-	RW        float64              `json:"rw,omitempty"`
-	Region    uint64               `json:"region,omitempty"`
-	Peers     []uint64             `json:"peers,omitempty"`
-	ConfVer   uint64               `json:"conf_ver,omitempty"`
+	Addr         string               `json:"addr,omitempty"`
+	Version      string               `json:"version,omitempty"`
+	ReqState     metapb.StoreState    `json:"req_state,omitempty"`
+	ReqDestroyed bool                 `json:"req_physically_destroyed,omitempty"`
+	StatusAddr   string               `json:"status_addr,omitempty"`
+	PeerAddr     string               `json:"peer_addr,omitempty"`
+	GitHash      string               `json:"git_hash,omitempty"`
+	StartTS      int64                `json:"start_ts,omitempty"`
+	DeployPath   string               `json:"deploy_path,omitempty"`
+	Variation    string               `json:"variation,omitempty"`
+	Labels       []*metapb.StoreLabel `json:"labels,omitempty"`
+	Force        bool                 `json:"force,omitempty"`
+	Destroyed    bool                 `json:"physically_destroyed,omitempty"`
+	LW           float64              `json:"lw,omitempty"`
+	RW           float64              `json:"rw,omitempty"`
+	Region       uint64               `json:"region,omitempty"`
+	Peers        []uint64             `json:"peers,omitempty"`
+	ConfVer      uint64               `json:"conf_ver,omitempty"`
 
 	Before   string     `json:"target_before"`
 	Fault    *faultPlan `json:"fault_plan,omitempty"`
@@ -430,7 +437,9 @@ func (e *env) exec(st *step) {
 	var hdr *pdpb.ResponseHeader
 	switch st.Cmd {
 	case "put":
-		store := &metapb.Store{Id: st.ID, Address: st.Addr, Version: st.Version, Labels: cloneLabels(st.Labels), State: st.ReqState}
+		store := &metapb.Store{Id: st.ID, Address: st.Addr, Version: st.Version, Labels: cloneLabels(st.Labels), State: st.ReqState,
+			PhysicallyDestroyed: st.ReqDestroyed, StatusAddress: st.StatusAddr, PeerAddress: st.PeerAddr, GitHash: st.GitHash,
+			StartTimestamp: st.StartTS, DeployPath: st.DeployPath}
 		if st.Via == "grpc" {
 			var resp *pdpb.PutStoreResponse
 			resp, err = e.s.PutStore(e.ctx, &pdpb.PutStoreRequest{Header: e.m.Header(), Store: store})
